@@ -150,7 +150,10 @@ impl<R: DynamicChannelRegion> RegionHandler for DynamicChannelPlan<R> {
             0..=4 => {
                 let base_index = ch_mask_ctl as usize * 2;
                 channel_mask.set_bank(base_index, ch_mask.get_index(0));
-                channel_mask.set_bank(base_index + 1, ch_mask.get_index(1));
+                // ChMaskCntl 4 addresses channels 64..=79; only 64..=71 (bank 8) exist
+                if base_index + 1 < 9 {
+                    channel_mask.set_bank(base_index + 1, ch_mask.get_index(1));
+                }
             }
             5 => {
                 let ch_mask: u16 =
